@@ -253,6 +253,16 @@ structure St where
   extraHash : List Bytes := []
   langExt : Bool := true                  -- `language_extensions`: the last `-std=` value starts with "gnu" (or none given)
 
+/-- `quote_for_make` (fix F-C01-o): the quoting gcc and clang apply to the default target of a dependency file — white space gets a
+    backslash and every backslash right before it is doubled, `$` is doubled, `#` gets a backslash; a string that is not UTF-8 is left alone -/
+def makeQuoteGo (bs : Nat) : Bytes → Bytes
+  | [] => []
+  | c :: r =>
+    (if c == 32 || c == 9 then List.replicate (bs + 1) 92 else if c == 36 then [36] else if c == 35 then [92] else [])
+      ++ c :: makeQuoteGo (if c == 92 then bs + 1 else 0) r
+
+def makeQuote (t : Bytes) : Bytes := if RArgsM.validUtf8 t then makeQuoteGo 0 t else t
+
 def valueOf : Argument → Bytes
   | .withValue _ _ v _ => v | _ => []
 
@@ -334,7 +344,7 @@ def finishWith (st : St) (input : Bytes) (lang : Lang) : Parsed :=
       ++ (if st.splitDwarf then [(sb "dwo", withExtension output (sb "dwo"), true)] else [])
       ++ (if st.gcno then [(sb "gcno", withExtension output (sb "gcno"), false)] else [])
       ++ [(sb "obj", output, false)],
-    dep := st.dep ++ (if st.needDepTarget then [st.depFlag, st.depTarget.getD output] else [])
+    dep := st.dep ++ (if st.needDepTarget then [st.depFlag, st.depTarget.getD (makeQuote output)] else [])
                   ++ (if st.depPath == 1 then [sb "-MF", withExtension output (sb "d")] else []),
     pre := st.pre,
     common := st.common ++ (if st.splitDwarf then [sb "-D_gsplit_dwarf_path=" ++ withExtension output (sb "dwo")] else []),
